@@ -730,3 +730,5 @@ PROPS["C03"]["required_theorems"] += ["Failsafe.Props.C03.composition_clock_mono
 # C17 concern as much as a C09 one (round 10: a hedge counted by CopyForHedge / OnHedge but never launched)
 PROPS["C17"]["diff"] = PROPS["C17"]["diff"] + [dict(_TRACE_DIFF, slice="tracehedge")]
 PROPS["C17"]["ties"] = PROPS["C17"]["ties"] + ["Failsafe.Props.C09"]
+
+PROPS["C17"]["required_theorems"] += ["Failsafe.Props.C17." + t for t in ["launched_step", "launched_counts_hedge_events", "settled_attempts_eq_hedge_events"]]
